@@ -308,4 +308,92 @@ theorem tbl_alnum_noSingle (c : Char) (h : realCharSpec.alnum c = true) : single
 
 theorem realCharSpec_alnumNoMarker : AlnumNoMarker realCharSpec := ⟨tbl_alnum_noSingle⟩
 
+/-- no range of the real table that is lexer white space (1) or a word character (4) contains backslash, `-`
+    or `[` -/
+def tblPlainOK (r : Nat × Nat × Nat) : Bool :=
+  (r.2.2 &&& 1 == 0 && r.2.2 &&& 4 == 0) || [92, 45, 91].all (fun k => k < r.1 || r.2.1 < k)
+
+theorem tbl_plainOK_all : Gen.charRangesList.all tblPlainOK = true := by decide +kernel
+
+theorem tbl_plain (c : Char) (h : realCharSpec.ws c = true ∨ realCharSpec.wordChar c = true) : PlainCh c := by
+  have key := tbl_forall_chars tblPlainOK
+    (fun c b => ((b &&& 1 != 0) = true ∨ (b &&& 4 != 0) = true) →
+      c.toNat ≠ 92 ∧ c.toNat ≠ 45 ∧ c.toNat ≠ 91)
+    tbl_plainOK_all (fun _ h => by simp at h)
+    (fun c r hQ h1 h2 ha => by
+      simp only [tblPlainOK, List.all_cons, List.all_nil, Bool.and_true, Bool.or_eq_true, Bool.and_eq_true,
+        beq_iff_eq, decide_eq_true_eq] at hQ
+      simp only [bne_iff_ne, ne_eq] at ha
+      rcases hQ with ⟨h1', h4⟩ | hk
+      · rcases ha with ha | ha
+        · exact absurd h1' ha
+        · exact absurd h4 ha
+      · omega) c
+  obtain ⟨a1, a2, a3⟩ := key h
+  refine ⟨?_, ?_, ?_⟩ <;> (intro e; subst e; revert a1 a2 a3; decide)
+
+/-- `CommentSpec` holds of the table generated from the real lexer -/
+theorem realCharSpec_commentSpec : CommentSpec realCharSpec :=
+  ⟨fun c h => tbl_plain c (Or.inl h), fun c h => tbl_plain c (Or.inr h)⟩
+
+/-! ### statements for `Props/C05.lean` -/
+
+/-- the three component parsers: every content token between the cursors is carried by the returned event,
+    or an error was pushed -/
+theorem frag_component_carries {ts : List Tok} (hw : WF ts) {e : Ext} {s : BP α} (hg : G ts e s)
+    (p : P α (Option (Ev α))) (hp : p = ingredientP ∨ p = cookwareP ∨ p = timerP) (ev : Ev α)
+    (hr : (p s).1 = some ev) :
+    ∀ (i : Nat) (t : Tok), s.cur ≤ i → i < (p s).2.cur → ts[i]? = some t → CoreTok s.cs t →
+      HasErrEv (p s).2.evs ∨ ev.carries s.cs (tokBodyStart t) t.stop := by
+  have hwi := cov_wf_wfi hw
+  have hge : GE (fun _ : Array (Ev α) => True) ts e s := ⟨hg, trivial⟩
+  have hup : UpP (fun _ : Array (Ev α) => True) := fun _ _ _ => trivial
+  rcases hp with rfl | rfl | rfl
+  · exact (ingredientP_fc hup hwi hge rfl).2 ev hr
+  · exact (cookwareP_fc hup hwi hge rfl).2 ev hr
+  · exact (timerP_fc hup hwi hge rfl).2 ev hr
+
+/-- one block of adjacent tokens, any shape, any previous queue -/
+theorem frag_block_carries (cs : CharSpec) (ext : Ext) (oldStyle : Bool) (blk : List Tok) (evs : Array (Ev α))
+    (hw : WF blk) :
+    HasErrEv (runBlock cs ext oldStyle blk evs none).1 ∨
+    ∀ t ∈ blk, CoreTok cs t → TokCarried cs (runBlock cs ext oldStyle blk evs none).1 t := by
+  have h := runBlock_fq (K := fun _ => False) cs ext oldStyle blk evs (cov_wf_wfi hw) Boundary.first
+    (Or.inr ⟨fun _ h => h.elim, fun i hi => absurd hi (Nat.not_lt_zero _)⟩)
+  rcases h with h | ⟨-, h2⟩
+  · exact Or.inl h
+  · right
+    intro t ht hct
+    obtain ⟨i, hi, hget⟩ := List.mem_iff_getElem.1 ht
+    exact h2 i hi t (by rw [List.getElem?_eq_getElem hi, hget]) hct
+
+theorem frag_carries_kind {cs : CharSpec} {ev : Ev α} {p q : Nat} (h : ev.carries cs p q) :
+    ev.isContentKind = true := by
+  cases ev with
+  | «section» n =>
+    obtain ⟨T, hT, -⟩ := h
+    rw [hT]; rfl
+  | start k => exact h.elim
+  | stop k => exact h.elim
+  | error d => exact h.elim
+  | warning d => exact h.elim
+  | _ => rfl
+
+theorem frag_errorFree_not_hasErr {evs : Array (Ev α)} (h : ErrorFree evs) : ¬ HasErrEv evs := by
+  rintro ⟨d, hd⟩
+  exact h _ hd d rfl
+
+/-- for the examples: the fragments (start byte, end byte) of the texts an event carries — for a component:
+    name, alias, note, unit, in this order -/
+def Ev.fragLayout (ev : Ev α) : List (List (Nat × Nat)) :=
+  match ev with
+  | .text t => [t.frags.map (fun f => (f.offset, f.stop))]
+  | .ingredient i => [i.val.name.frags.map (fun f => (f.offset, f.stop))] ++
+      (i.val.alias.map (fun t => t.frags.map (fun f => (f.offset, f.stop)))).toList ++
+      (i.val.note.map (fun t => t.frags.map (fun f => (f.offset, f.stop)))).toList ++
+      ((i.val.quantity.bind (fun q => q.val.unit)).map (fun t => t.frags.map (fun f => (f.offset, f.stop)))).toList
+  | .metadata k v => [k.frags.map (fun f => (f.offset, f.stop)), v.frags.map (fun f => (f.offset, f.stop))]
+  | .«section» (some n) => [n.frags.map (fun f => (f.offset, f.stop))]
+  | _ => []
+
 end Cook
